@@ -61,10 +61,18 @@ func lit(e ast.Expr) string {
 			args[i] = lit(a)
 		}
 		return lit(v.Fun) + "(" + strings.Join(args, ",") + ")"
+	case *ast.SliceExpr:
+		lo, hi := "", ""
+		if v.Low != nil {
+			lo = lit(v.Low)
+		}
+		if v.High != nil {
+			hi = lit(v.High)
+		}
+		return lit(v.X) + "[" + lo + ":" + hi + "]"
 	case *ast.IndexExpr:
 		return lit(v.X) + "[" + lit(v.Index) + "]"
-	case *ast.ParenExpr:
-		return "(" + lit(v.X) + ")"
+
 	case *ast.BinaryExpr:
 		return lit(v.X) + v.Op.String() + lit(v.Y)
 	case *ast.UnaryExpr:
